@@ -969,6 +969,7 @@ class ExcelCompiler:
 
     def _process_gen_graph(self):
 
+        cell_todos = []
         while self.graph_todos:
             # connect the dependant cells in the graph
             dependant = self.graph_todos.pop()
@@ -979,13 +980,21 @@ class ExcelCompiler:
                 if precedent_address.address not in self.cell_map:
                     self._gen_graph(precedent_address, recursed=True)
 
-                self.dep_graph.add_edge(
-                    self.cell_map[precedent_address.address], dependant)
+                precedent = self.cell_map[precedent_address.address]
+                self.dep_graph.add_edge(precedent, dependant)
+
+                if (dependant.value is not None and precedent.value is None
+                        and precedent.formula and not self.cycles):
+                    # a stored result needs the values it was calculated
+                    # from, a formula stored without one (eg: "") is calced
+                    cell_todos.append(precedent_address.address)
 
         # calc the values for ranges
         try:
             for range_todo in reversed(self.range_todos):
                 self._evaluate_range(range_todo)
+            for cell_todo in cell_todos:
+                self._evaluate(cell_todo)
         finally:
             self.range_todos = []
 
